@@ -471,7 +471,8 @@ func (c *converter) AppCall(calls []transpiler.AppCall, valueUsed bool) ([]strin
 		if len(argsCopy) > 0 {
 			space = " "
 		}
-		callStrings = append(callStrings, fmt.Sprintf("%s%s%s", call.Name(), space, strings.Join(argsCopy, " ")))
+		// The name is quoted like the arguments (a path may contain whitespaces or special characters).
+		callStrings = append(callStrings, fmt.Sprintf("\"%s\"%s%s", c.StringToString(call.Name()), space, strings.Join(argsCopy, " ")))
 	}
 	callString := strings.Join(callStrings, " | ")
 
